@@ -28,7 +28,9 @@
 #include "message.h"
 #include "convert.h"
 #include "event.h"
+#include "meta.h"
 #include "connection.h"
+#include "notify.h"
 #include "stream.h"
 #include "vf.h"
 
@@ -38,11 +40,12 @@ static const struct {
 	const char *name;
 	MPT_TYPE(data_encoder) enc;
 	MPT_TYPE(data_decoder) dec;
+	int type;
 } framing[4] = {
-	{ "cobs",       mpt_encode_cobs,       mpt_decode_cobs },
-	{ "cobs/r",     mpt_encode_cobs_r,     mpt_decode_cobs_r },
-	{ "cobs/zpe",   mpt_encode_cobs_zpe,   mpt_decode_cobs_zpe },
-	{ "cobs/zpe+r", mpt_encode_cobs_zpe_r, mpt_decode_cobs_zpe_r }
+	{ "cobs",       mpt_encode_cobs,       mpt_decode_cobs,       MPT_ENUM(EncodingCobs) },
+	{ "cobs/r",     mpt_encode_cobs_r,     mpt_decode_cobs_r,     MPT_ENUM(EncodingCobsInline) },
+	{ "cobs/zpe",   mpt_encode_cobs_zpe,   mpt_decode_cobs_zpe,   MPT_ENUM(EncodingCobs) | MPT_ENUM(EncodingCompress) },
+	{ "cobs/zpe+r", mpt_encode_cobs_zpe_r, mpt_decode_cobs_zpe_r, MPT_ENUM(EncodingCobsInline) | MPT_ENUM(EncodingCompress) }
 };
 
 #define MAXMSG   128
@@ -54,6 +57,10 @@ typedef struct { uint8_t *d; size_t n; } msg_t;
 static struct {
 	int fr;
 	MPT_STRUCT(stream) S, R;
+	MPT_INTERFACE(input) *rin; /* receiver made by mpt_stream_input() instead of R */
+	int idlen;             /* its message id length: handler gets the message without these bytes */
+	int after_retry;       /* last dispatch announced a further message (decoded by its look-ahead) */
+	msg_t exp[MAXMSG];     /* what the handler has to see */
 	int a[2], b[2];        /* pipe A: S -> harness, pipe B: harness -> R */
 	msg_t msg[MAXMSG];
 	int nmsg;
@@ -106,6 +113,7 @@ static const char *rdesc(void)
 {
 	static char b[240];
 	const MPT_STRUCT(decode_queue) *d = &C.R._rd;
+	if (C.rin) { snprintf(b, sizeof(b), "R{mpt_stream_input, id length %d}", C.idlen); return b; }
 	snprintf(b, sizeof(b), "R.rd{max=%zu off=%zu len=%zu curr=%zu pos=%zu len=%zu msg=%zd ctx=%#lx flags=%#x}", d->data.max, d->data.off, d->data.len,
 	         d->_state.curr, d->_state.data.pos, d->_state.data.len, d->_state.data.msg, (unsigned long) d->_state._ctx, mpt_stream_flags(&C.R._info));
 	return b;
@@ -125,6 +133,7 @@ static void inv_recv(const char *after)
 {
 	const MPT_STRUCT(decode_queue) *d = &C.R._rd;
 	const MPT_STRUCT(decode_state) *s = &d->_state;
+	if (C.rin) return;
 	vf_count("monitor:stream-dec-invariant", 1);
 	VF_CHECK(d->data.len <= d->data.max, "model:stream:rd-len-exceeds-max", "after %s: %s", after, rdesc());
 	VF_CHECK(s->curr <= d->data.len && s->data.pos <= s->curr && s->data.len <= s->curr - s->data.pos, "model:stream:rd-offsets-outside",
@@ -138,8 +147,8 @@ static size_t pick_msglen(vf_rng *r)
 	static const uint16_t edge[] = { 4, 5, 29, 30, 31, 32, 33, 221, 222, 223, 224, 225, 226, 252, 253, 254, 255, 256, 257,
 	                                 445, 446, 447, 508, 509, 510, 511, 668, 669, 762, 763, 764, 765 };
 	uint32_t k = vf_below(r, 100);
-	if (k < 3)  return 0;
-	if (k < 8)  return 1 + vf_below(r, 3);
+	if (k < 10) return 0;
+	if (k < 14) return 1 + vf_below(r, 3);
 	if (k < 50) return 4 + vf_below(r, 44);
 	if (k < 65) return 4 + vf_below(r, 200);
 	if (k < 90) return edge[vf_below(r, sizeof(edge) / sizeof(*edge))];
@@ -320,7 +329,7 @@ static int on_message(void *arg, const MPT_STRUCT(message) *msg)
 	static uint8_t got[MAXLEN + 16];
 	size_t n = 0, i, total;
 	int idx = C.received, j;
-	const uint8_t *rb = C.R._rd.data.base;
+	const uint8_t *rb = C.rin ? 0 : C.R._rd.data.base;
 
 	(void) arg;
 	C.cb_calls++;
@@ -328,17 +337,17 @@ static int on_message(void *arg, const MPT_STRUCT(message) *msg)
 	VF_CHECK(C.in_dispatch == 1, "model:stream_dispatch:callback-outside-dispatch", "handler called %d levels deep", C.in_dispatch);
 	total = msg->used;
 	for (i = 0; i < msg->clen; i++) total += msg->cont[i].iov_len;
-	if (total > MAXLEN) vf_fail("model:stream_dispatch:message-length", "message %d dispatched with %zu bytes, sent %zu; %s", idx, total, idx < C.nmsg ? C.msg[idx].n : 0, rdesc());
+	if (total > MAXLEN) vf_fail("model:stream_dispatch:message-length", "message %d dispatched with %zu bytes, sent %zu; %s", idx, total, idx < C.nmsg ? C.exp[idx].n : 0, rdesc());
 	if (msg->used) {
 		const uint8_t *p = msg->base;
-		VF_CHECK(p >= rb && p + msg->used <= rb + C.R._rd.data.max, "model:stream_dispatch:outside-ring", "first part %zd..+%zu outside ring of %zu", (ssize_t) (p - rb), msg->used, C.R._rd.data.max);
+		VF_CHECK(!rb || (p >= rb && p + msg->used <= rb + C.R._rd.data.max), "model:stream_dispatch:outside-ring", "first part %zd..+%zu outside ring of %zu", (ssize_t) (p - rb), msg->used, C.R._rd.data.max);
 		memcpy(got, msg->base, msg->used); n = msg->used;
 	}
 	for (i = 0; i < msg->clen; i++) {
 		const uint8_t *p = msg->cont[i].iov_base;
 		size_t l = msg->cont[i].iov_len;
 		if (!l) continue;
-		VF_CHECK(p >= rb && p + l <= rb + C.R._rd.data.max, "model:stream_dispatch:outside-ring", "part %zu: %zd..+%zu outside ring of %zu", i + 1, (ssize_t) (p - rb), l, C.R._rd.data.max);
+		VF_CHECK(!rb || (p >= rb && p + l <= rb + C.R._rd.data.max), "model:stream_dispatch:outside-ring", "part %zu: %zd..+%zu outside ring of %zu", i + 1, (ssize_t) (p - rb), l, C.R._rd.data.max);
 		memcpy(got + n, p, l); n += l;
 		C.msg_split = 1;
 		vf_count("state:stream-message-split", 1);
@@ -349,25 +358,34 @@ static int on_message(void *arg, const MPT_STRUCT(message) *msg)
 		vf_fail("model:stream_dispatch:phantom-message", "message %d dispatched (%zu bytes: %s) but only %d were terminated by the sender; %s",
 		        idx, n, vf_hex(hx1, sizeof(hx1), got, n), C.terminated, rdesc());
 	VF_CHECK(idx < C.delivered, "model:stream_dispatch:message-before-delimiter", "message %d dispatched although only %d delimiters were delivered", idx, C.delivered);
-	if (n == C.msg[idx].n && !memcmp(got, C.msg[idx].d, n)) {
+	if (n == C.exp[idx].n && !memcmp(got, C.exp[idx].d, n)) {
+		/* an empty message that the previous dispatch call already decoded (Retry) is a message like any other */
+		if (!n && C.after_retry) vf_count(C.rin ? "state:input-empty-message-after-retry" : "state:stream-empty-message-after-retry", 1);
+		if (!n) vf_count("dispatch:empty-message", 1);
 		C.received++;
 		C.futile = 0;
 		C.allowance = 0;
 		C.peak_unread = 0;
 		return MPT_EVENTFLAG(None);
 	}
-	if (idx > 0 && n == C.msg[idx - 1].n && !memcmp(got, C.msg[idx - 1].d, n) && (n < 4 || C.msg[idx].n != n))
+	if (idx > 0 && n == C.exp[idx - 1].n && !memcmp(got, C.exp[idx - 1].d, n) && (n < 4 || C.exp[idx].n != n))
 		vf_fail("model:stream_dispatch:duplicate-message", "message %d (%zu bytes) dispatched again instead of message %d (%zu bytes); %s (%s)",
-		        idx - 1, n, idx, C.msg[idx].n, rdesc(), framing[C.fr].name);
+		        idx - 1, n, idx, C.exp[idx].n, rdesc(), framing[C.fr].name);
 	for (j = 0; j < C.nmsg; j++) {
-		if (j == idx || C.msg[j].n < 4 || C.msg[j].n != n || memcmp(got, C.msg[j].d, n)) continue;
+		if (j == idx || C.exp[j].n < 4 || C.exp[j].n != n || memcmp(got, C.exp[j].d, n)) continue;
 		vf_fail(j < idx ? "model:stream_dispatch:duplicate-message" : "model:stream_dispatch:skipped-message",
-		        "dispatch %d is message %d (%zu bytes), expected message %d (%zu bytes); %s", idx, j, n, idx, C.msg[idx].n, rdesc());
+		        "dispatch %d is message %d (%zu bytes), expected message %d (%zu bytes); %s", idx, j, n, idx, C.exp[idx].n, rdesc());
 	}
-	vf_fail(n == C.msg[idx].n ? "model:stream_dispatch:message-content" : "model:stream_dispatch:message-length",
+	vf_fail(n == C.exp[idx].n ? "model:stream_dispatch:message-content" : "model:stream_dispatch:message-length",
 	        "(%s) message %d: got %zu bytes %s, sent %zu bytes %s; wire frame %s; %s", framing[C.fr].name, idx,
-	        n, vf_hex(hx1, sizeof(hx1), got, n), C.msg[idx].n, vf_hex(hx2, sizeof(hx2), C.msg[idx].d, C.msg[idx].n), frame_hex(idx), rdesc());
+	        n, vf_hex(hx1, sizeof(hx1), got, n), C.exp[idx].n, vf_hex(hx2, sizeof(hx2), C.exp[idx].d, C.exp[idx].n), frame_hex(idx), rdesc());
 	return 0;
+}
+static int on_event(void *arg, MPT_STRUCT(event) *ev)
+{
+	VF_CHECK(ev && ev->msg, "model:stream_input:event-without-message", "handler called with %s", ev ? "event without message" : "no event");
+	vf_count("input:event", 1);
+	return on_message(arg, ev->msg);
 }
 static int pipe_b_bytes(void)
 {
@@ -384,25 +402,40 @@ static void do_receive(vf_rng *r)
 	if (waiting) { size_t u = (size_t) pipe_b_bytes(); if (u > C.peak_unread) C.peak_unread = u; }
 	/* real poll() when nothing is readable now and then; the fast path is what mpt_stream_input uses */
 	if (vf_chance(r, 1, 4)) { timeout = 0; fast = 0; }
-	vf_at("mpt_stream_poll");
-	vf_count(fast ? "mpt_stream_poll(fast)" : "mpt_stream_poll(timeout 0)", 1);
-	ret = mpt_stream_poll(&C.R, POLLIN, timeout);
+	if (C.rin) {
+		/* the input interface: next() is the fast path poll */
+		timeout = -1; fast = 1;
+		vf_at("input::next");
+		vf_count("input::next", 1);
+		ret = C.rin->_vptr->next(C.rin, POLLIN);
+	} else {
+		vf_at("mpt_stream_poll");
+		vf_count(fast ? "mpt_stream_poll(fast)" : "mpt_stream_poll(timeout 0)", 1);
+		ret = mpt_stream_poll(&C.R, POLLIN, timeout);
+	}
 	vf_fp_u64(0x4000000 | (timeout & 1));
 	vf_log("poll(%d) = %d | %s", timeout, ret, rdesc());
 	inv_recv("mpt_stream_poll");
 	do {
 		int cb = C.cb_calls;
-		vf_at("mpt_stream_dispatch");
-		vf_count("mpt_stream_dispatch", 1);
 		C.in_dispatch++;
-		ret = mpt_stream_dispatch(&C.R, on_message, 0);
+		if (C.rin) {
+			vf_at("input::dispatch");
+			vf_count("input::dispatch", 1);
+			ret = C.rin->_vptr->dispatch(C.rin, on_event, 0);
+		} else {
+			vf_at("mpt_stream_dispatch");
+			vf_count("mpt_stream_dispatch", 1);
+			ret = mpt_stream_dispatch(&C.R, on_message, 0);
+		}
 		C.in_dispatch--;
+		C.after_retry = ret >= 0 && (ret & MPT_EVENTFLAG(Retry));
 		vf_log("dispatch = %s%#x | %s", ret < 0 ? errname(ret) : "", ret < 0 ? 0 : ret, rdesc());
 		inv_recv("mpt_stream_dispatch");
 		VF_CHECK(C.cb_calls - cb <= 1, "model:stream_dispatch:handler-called-twice", "one dispatch made %d handler calls", C.cb_calls - cb);
 		if (ret < 0) {
 			/* nothing there / reader wants space (next poll enlarges) */
-			if (ret == MPT_ERROR(MissingData) && !C.R._rd.data.len) vf_count("dispatch:empty", 1);
+			if (ret == MPT_ERROR(MissingData) && (C.rin || !C.R._rd.data.len)) vf_count("dispatch:empty", 1);
 			else if (ret == MPT_ERROR(MissingBuffer)) vf_count("dispatch:MissingBuffer", 1);
 			else vf_fail("model:stream_dispatch:error", "dispatch = %s on a well-formed stream (%s); next frame %s; %s", errname(ret), framing[C.fr].name,
 			             frame_hex(C.received), rdesc());
@@ -411,7 +444,8 @@ static void do_receive(vf_rng *r)
 		VF_CHECK(!(ret & MPT_EVENTFLAG(CtlError)), "model:stream_dispatch:ctl-error", "dispatch = %#x", ret);
 		if (ret & MPT_EVENTFLAG(Retry)) {
 			vf_count("dispatch:retry", 1);
-			VF_CHECK(C.R._rd._state.data.msg >= 0, "model:stream_dispatch:retry-without-message", "Retry but %s", rdesc());
+			VF_CHECK(C.rin || C.R._rd._state.data.msg >= 0, "model:stream_dispatch:retry-without-message", "Retry but %s", rdesc());
+			if (C.received < C.nmsg && !C.exp[C.received].n) vf_count("state:empty-message-announced-by-retry", 1);
 		}
 		calls++;
 		/* sometimes look at the transport before taking the announced message */
@@ -438,7 +472,8 @@ static void case_free(void)
 	free(C.fly); free(C.wire);
 	vf_at("mpt_stream_close");
 	mpt_stream_close(&C.S);
-	mpt_stream_close(&C.R);
+	if (C.rin) C.rin->_vptr->meta.unref((void *) C.rin);
+	else mpt_stream_close(&C.R);
 	close(C.a[0]); close(C.b[1]);
 }
 static void run_case(uint64_t idx, vf_rng *r)
@@ -448,7 +483,7 @@ static void run_case(uint64_t idx, vf_rng *r)
 	unsigned wp, wf, wm, wr;
 	size_t total = 0;
 	unsigned long limit;
-	int i, ret, fr = (int) (idx % 4);
+	int i, ret, fr = (int) (idx % 4), use_input = (int) ((idx / 4) % 2);
 
 	memset(&C, 0, sizeof(C));
 	C.fr = fr;
@@ -476,18 +511,33 @@ static void run_case(uint64_t idx, vf_rng *r)
 	ret = mpt_stream_dopen(&C.S, &sock, MPT_STREAMFLAG(Write) | MPT_STREAMFLAG(WriteBuf));
 	if (ret < 0) vf_inconclusive("dopen(write end) = %d: %s", ret, strerror(errno));
 	sock._id = C.b[0];
-	ret = mpt_stream_dopen(&C.R, &sock, MPT_STREAMFLAG(Read) | MPT_STREAMFLAG(ReadBuf));
-	if (ret < 0) vf_inconclusive("dopen(read end) = %d: %s", ret, strerror(errno));
-	VF_CHECK(C.S._wd._enc == framing[fr].enc && C.R._rd._dec == framing[fr].dec, "model:stream_dopen:codec-lost", "dopen dropped the configured codec");
-	VF_CHECK(_mpt_stream_fwrite(&C.S._info) == C.a[1] && _mpt_stream_fread(&C.R._info) == C.b[0], "model:stream_dopen:descriptor",
-	         "descriptors %d/%d, expected %d/%d", _mpt_stream_fwrite(&C.S._info), _mpt_stream_fread(&C.R._info), C.a[1], C.b[0]);
+	if (use_input) {
+		static const uint8_t idlens[] = { 1, 2, 4, 8 };
+		C.idlen = vf_chance(r, 1, 4) ? idlens[vf_below(r, 4)] : 0;
+		vf_at("mpt_stream_input");
+		C.rin = mpt_stream_input(&sock, MPT_STREAMFLAG(Read) | MPT_STREAMFLAG(ReadBuf), framing[fr].type, C.idlen);
+		if (!C.rin) vf_inconclusive("mpt_stream_input(%s, id length %d) failed: %s", framing[fr].name, C.idlen, strerror(errno));
+		vf_count(C.idlen ? "receiver:stream-input-with-id" : "receiver:stream-input", 1);
+	} else {
+		ret = mpt_stream_dopen(&C.R, &sock, MPT_STREAMFLAG(Read) | MPT_STREAMFLAG(ReadBuf));
+		if (ret < 0) vf_inconclusive("dopen(read end) = %d: %s", ret, strerror(errno));
+		VF_CHECK(C.R._rd._dec == framing[fr].dec && _mpt_stream_fread(&C.R._info) == C.b[0], "model:stream_dopen:codec-lost", "dopen dropped the configured codec / descriptor");
+		vf_count("receiver:stream-dispatch", 1);
+	}
+	VF_CHECK(C.S._wd._enc == framing[fr].enc && _mpt_stream_fwrite(&C.S._info) == C.a[1], "model:stream_dopen:descriptor",
+	         "sender: codec lost or descriptor %d, expected %d", _mpt_stream_fwrite(&C.S._info), C.a[1]);
 
 	C.nmsg = vf_range(r, 4, vf_thorough ? 60 : 30);
 	for (i = 0; i < C.nmsg; i++) {
 		size_t n = pick_msglen(r);
+		/* with message ids the first bytes are the id (request, not reply): the handler gets the rest */
+		if (n < (size_t) C.idlen) n = C.idlen;
 		C.msg[i].n = n;
 		C.msg[i].d = malloc(n + 1);
 		fill_msg(r, C.msg[i].d, n, (uint32_t) (idx * 1000 + i + 1));
+		if (C.idlen) C.msg[i].d[0] &= 0x7f;
+		C.exp[i].d = C.msg[i].d + C.idlen;
+		C.exp[i].n = n - C.idlen;
 		vf_fp(C.msg[i].d, n);
 		total += n;
 	}
@@ -519,11 +569,18 @@ static void run_case(uint64_t idx, vf_rng *r)
 	{
 		int cb = C.cb_calls, rounds;
 		for (rounds = 0; rounds < 3; rounds++) {
-			vf_at("mpt_stream_poll");
-			(void) mpt_stream_poll(&C.R, POLLIN, rounds ? 0 : -1);
-			vf_at("mpt_stream_dispatch");
 			C.in_dispatch++;
-			ret = mpt_stream_dispatch(&C.R, on_message, 0);
+			if (C.rin) {
+				vf_at("input::next");
+				(void) C.rin->_vptr->next(C.rin, POLLIN);
+				vf_at("input::dispatch");
+				ret = C.rin->_vptr->dispatch(C.rin, on_event, 0);
+			} else {
+				vf_at("mpt_stream_poll");
+				(void) mpt_stream_poll(&C.R, POLLIN, rounds ? 0 : -1);
+				vf_at("mpt_stream_dispatch");
+				ret = mpt_stream_dispatch(&C.R, on_message, 0);
+			}
 			C.in_dispatch--;
 			vf_log("final dispatch = %d | %s", ret, rdesc());
 			VF_CHECK(C.cb_calls == cb, "model:stream_dispatch:phantom-message", "handler called after all %d messages were dispatched; %s", C.nmsg, rdesc());
@@ -538,17 +595,119 @@ static void run_case(uint64_t idx, vf_rng *r)
 	if (C.split_frames) vf_count("history:stream-frame-in-several-segments", 1);
 	if (C.flush_full) vf_count("history:flush-met-full-transport", 1);
 	vf_max("max:stream-enc-capacity", C.S._wd.data.max);
-	vf_max("max:stream-dec-capacity", C.R._rd.data.max);
-	vf_sample("%s %d messages / %zu bytes through two streams on pipes, %zu wire bytes in %lu steps, frames cut: %d, first message %s",
-	          framing[fr].name, C.nmsg, total, C.nwire, C.steps, C.split_frames, vf_hex(hx1, 80, C.msg[0].d, C.msg[0].n));
+	if (!C.rin) vf_max("max:stream-dec-capacity", C.R._rd.data.max);
+	vf_sample("%s, receiver %s: %d messages / %zu bytes through two streams on pipes, %zu wire bytes in %lu steps, frames cut: %d, first message %s",
+	          framing[fr].name, C.rin ? (C.idlen ? "mpt_stream_input with message ids" : "mpt_stream_input") : "mpt_stream_dispatch",
+	          C.nmsg, total, C.nwire, C.steps, C.split_frames, vf_hex(hx1, 80, C.msg[0].d, C.msg[0].n));
 	case_free();
 }
 
-uint64_t vf_cases(void) { return vf_thorough ? 300000 : 16000; }
+
+/* ------------------------------------------------------------------ sender without encoder */
+/*
+ * mpt_stream_push() on a stream without encoder appends the bytes (growing the write
+ * queue when only a part fits), the terminating call adds the line separator and commits;
+ * mpt_stream_flush() writes committed bytes only.  Byte model: the transport sees exactly
+ * message + separator for every terminated message, in order, nothing of an open message.
+ */
+static void run_raw_sender(uint64_t idx, vf_rng *r)
+{
+	static const MPT_STRUCT(stream) sinit = MPT_STREAM_INIT;
+	MPT_STRUCT(socket) sock = MPT_SOCKET_INIT;
+	MPT_STRUCT(stream) S = sinit;
+	const char *nl = mpt_newline_string(0);
+	size_t nll = strlen(nl), ncommit = 0, nopen = 0, nread = 0, cap = 1u << 20;
+	uint8_t *exp = malloc(cap), *got = malloc(65536), next = 0;
+	int fd[2], nmsg = vf_range(r, 3, 30), m = 0, ret, partial = 0, steps = 0;
+
+	(void) idx;
+	if (pipe2(fd, O_NONBLOCK | O_CLOEXEC) < 0) vf_inconclusive("pipe2: %s", strerror(errno));
+	(void) fcntl(fd[1], F_SETPIPE_SZ, 4096);
+	sock._id = fd[1];
+	vf_at("mpt_stream_dopen");
+	ret = mpt_stream_dopen(&S, &sock, MPT_STREAMFLAG(Write) | MPT_STREAMFLAG(WriteBuf));
+	if (ret < 0) vf_inconclusive("dopen(write end) = %d: %s", ret, strerror(errno));
+	vf_fp_u64(0x5eed);
+	vf_log("raw sender case: %d messages", nmsg);
+	while (m < nmsg || S._wd.data.len || nread < ncommit) {
+		unsigned k = vf_below(r, 10);
+		if (++steps > 100000) vf_fail("model:raw_stream:no-termination", "%d steps: %d/%d messages, %zu committed, %zu read; wd{max=%zu len=%zu done=%zu scratch=%zu}",
+		                              steps, m, nmsg, ncommit, nread, S._wd.data.max, S._wd.data.len, S._wd._state.done, S._wd._state.scratch);
+		if (k < 5 && m < nmsg) {
+			size_t nfree = S._wd.data.max - S._wd.data.len, n, i;
+			ssize_t pr;
+			if (vf_chance(r, 1, 4)) {
+				/* terminate: separator + commit */
+				vf_at("mpt_stream_push");
+				vf_count("mpt_stream_push(raw terminate)", 1);
+				pr = mpt_stream_push(&S, 0, 0);
+				vf_log("raw terminate = %zd | wd{max=%zu off=%zu len=%zu done=%zu scratch=%zu}", pr, S._wd.data.max, S._wd.data.off, S._wd.data.len, S._wd._state.done, S._wd._state.scratch);
+				VF_CHECK(pr >= 0, "model:raw_stream:terminate-error", "terminate = %s", errname(pr));
+				memcpy(exp + ncommit + nopen, nl, nll);
+				ncommit += nopen + nll; nopen = 0;
+				m++;
+				VF_CHECK(!S._wd._state.scratch && S._wd._state.done == S._wd.data.len, "model:raw_stream:terminate-accounting",
+				         "after terminate: done=%zu scratch=%zu len=%zu", S._wd._state.done, S._wd._state.scratch, S._wd.data.len);
+			} else {
+				n = vf_chance(r, 1, 2) ? nfree + 1 + vf_below(r, 64) : 1 + vf_below(r, 200);
+				if (ncommit + nopen + n + 8 > cap) n = 1;
+				uint8_t *d = vf_xalloc(n);
+				for (i = 0; i < n; i++) { if (!++next) next = 1; d[i] = next; }
+				if (n > nfree && nfree) { partial = 1; vf_count("state:raw-stream-push-larger-than-free-space", 1); }
+				vf_at("mpt_stream_push");
+				vf_count("mpt_stream_push(raw)", 1);
+				pr = mpt_stream_push(&S, n, d);
+				vf_fp_u64(0x8000000 | n);
+				vf_log("raw stream push(%zu) = %zd | wd{max=%zu off=%zu len=%zu done=%zu scratch=%zu}", n, pr, S._wd.data.max, S._wd.data.off, S._wd.data.len, S._wd._state.done, S._wd._state.scratch);
+				/* growable write buffer: everything is taken */
+				VF_CHECK(pr == (ssize_t) n, "model:raw_stream:push-return", "push(%zu) with %zu bytes free = %s%zd; wd{max=%zu len=%zu done=%zu scratch=%zu}", n, nfree,
+				         pr < 0 ? errname(pr) : "", pr < 0 ? (ssize_t) 0 : pr, S._wd.data.max, S._wd.data.len, S._wd._state.done, S._wd._state.scratch);
+				memcpy(exp + ncommit + nopen, d, n);
+				nopen += n;
+				vf_xfree(d, n);
+			}
+			/* queue holds exactly what was not flushed yet */
+			vf_count("monitor:raw-stream-accounting", 1);
+			VF_CHECK(S._wd._state.done + S._wd._state.scratch == S._wd.data.len && S._wd._state.scratch == nopen, "model:raw_stream:accounting",
+			         "done=%zu scratch=%zu len=%zu, open message has %zu bytes", S._wd._state.done, S._wd._state.scratch, S._wd.data.len, nopen);
+		} else if (k < 7) {
+			size_t done = S._wd._state.done, len = S._wd.data.len;
+			vf_at("mpt_stream_flush");
+			vf_count("mpt_stream_flush(raw)", 1);
+			ret = mpt_stream_flush(&S);
+			vf_log("raw flush = %d | done=%zu len=%zu", ret, S._wd._state.done, S._wd.data.len);
+			VF_CHECK(S._wd._state.done <= done && done - S._wd._state.done == len - S._wd.data.len, "model:raw_stream:flush-accounting",
+			         "flush = %d: done %zu -> %zu, length %zu -> %zu", ret, done, S._wd._state.done, len, S._wd.data.len);
+		} else {
+			ssize_t n = read(fd[0], got, 1 + vf_below(r, 65535));
+			if (n > 0) {
+				/* only committed bytes, exactly once, in order */
+				vf_count("monitor:raw-stream-wire-compare", 1);
+				VF_CHECK(nread + n <= ncommit, "model:raw_stream:uncommitted-bytes-sent", "%zu bytes on the transport, only %zu committed", nread + n, ncommit);
+				VF_CHECK(!memcmp(got, exp + nread, n), "model:raw_stream:wire-content", "transport bytes at offset %zu differ: %s, expected %s", nread,
+				         vf_hex(hx1, 100, got, n), vf_hex(hx2, 100, exp + nread, n));
+				nread += n;
+			}
+		}
+	}
+	VF_CHECK(nread == ncommit && !nopen, "model:raw_stream:conservation", "committed %zu, read %zu", ncommit, nread);
+	vf_count("monitor:raw-stream-conservation-at-end", 1);
+	vf_count("messages:raw-stream", m);
+	if (partial && m >= 3) vf_nontrivial();
+	vf_sample("stream without encoder: %d newline-terminated messages, %zu bytes pushed / flushed / read back from the pipe", m, ncommit);
+	vf_at("mpt_stream_close");
+	mpt_stream_close(&S);
+	close(fd[0]);
+	free(exp); free(got);
+}
+
+uint64_t vf_cases(void) { return vf_thorough ? 320000 : 20000; }
 
 void vf_case(uint64_t idx, vf_rng *r)
 {
 	static int once;
 	if (!once) { signal(SIGPIPE, SIG_IGN); once = 1; }
+	/* every fifth block of eight: sender without encoder against a byte model */
+	if ((idx / 8) % 5 == 4) { run_raw_sender(idx, r); return; }
 	run_case(idx, r);
 }
